@@ -716,10 +716,10 @@ class UnitCalculator(object):
                 new_args.append(arg)
                 all_arg_units.append(arg_units)
             actual_units = reduce(mul, all_arg_units)
-            if to_units is not None or was_converted:
-                # Convert the result if required
+            if was_converted:
                 expr = expr.func(*new_args)
-                expr, was_converted, actual_units = maybe_convert_expr(expr, was_converted, actual_units, to_units)
+            # Convert the result if required
+            expr, was_converted, actual_units = maybe_convert_expr(expr, was_converted, actual_units, to_units)
         elif expr.is_Pow:
             # Pow is used by Sympy for exponentiating, roots and division
             base, exponent = expr.args
